@@ -597,6 +597,8 @@ def controls(pctx, rep):
     keys = {v["key"] for v in r.violations}
     rep.control("R1:vec-unsorted", any("hash_vec_unsorted" in k for k in keys), "posctl::hash_vec_unsorted")
     rep.control("R1:early-exit", any("hash_early_exit" in k and "early-exit" in k for k in keys), "posctl::hash_early_exit")
+    rep.control("R1:tie-break", any("hash_max_by_key_tie" in k for k in keys), "posctl::hash_max_by_key_tie: max_by_key over a hash map picks the tied item by hash order")
+    rep.control("R1:max-value-ok", not any("hash_max_value_ok" in k for k in keys), "posctl::hash_max_value_ok must stay silent")
     rep.control("R1:sorted-ok", not any("hash_vec_sorted_ok" in k for k in keys), "posctl::hash_vec_sorted_ok must stay silent")
     r2 = Report("ctl")
     clocks(F, r2)
